@@ -36,8 +36,8 @@ type Geo struct {
 	// bytes (they can never verify). For geometries too large to hash as a whole.
 	HashOnly map[int]bool
 
-	Trackers [][]string
-	URLList  []string
+	Trackers  [][]string
+	URLList   []string
 	HTTPSeeds []string
 }
 
